@@ -195,7 +195,7 @@ def judge_member(w, loaded, model: Model, contracts, spec, cls: str, key: str, m
     pre_ids = [tok_of(c) for g in chk.__preconditions__ for c in g]
     post_ids = [tok_of(c) for c in chk.__postconditions__]
     ids = dedup(pre_ids + post_ids)
-    inv_free = not (model.wrapped_for_invariants(m) and model.invs_on(cls, "CALL"))
+    inv_free = not model.invs_around(cls, m)
     hub = loaded.hub
     cap = 64 if w.tier == "thorough" else 32
     for truth in gen.all_truth(ids, w.rng, cap):
